@@ -277,3 +277,28 @@ def run_units_parallel(modname: str, units_list: List[Unit], workers: int = 16) 
         tgt["calls_used"] = sorted(set(tgt["calls_used"]) | set(part["calls_used"]))
         tgt["gen_s"] = max(tgt["gen_s"], part["gen_s"])
     return [merged[i] for i in range(len(units_list))]
+
+
+@dataclass
+class Lemma:
+    """Obligations without code (over tables / regexes extracted from the repo): build() -> list of obligation dicts."""
+
+    name: str
+    build: Callable
+    trusted: List[str] = field(default_factory=list)
+    replayer: str = ""
+    refute_hints: tuple = ()
+
+
+def make_ob(name: str, kind: str, hyps: list, goal, watch: Optional[dict] = None, strings: bool = False, timeout_s: Optional[float] = None, **meta) -> dict:
+    s = z3.Solver()
+    for h in hyps:
+        s.add(h)
+    s.add(z3.Not(zbool(goal)))
+    for t in (watch or {}).values():
+        s.add(t == t)
+    m = dict(meta)
+    m["strings"] = strings
+    if timeout_s:
+        m["timeout_s"] = timeout_s
+    return {"name": name, "kind": kind, "path": 0, "smt2": s.to_smt2(), "watch": {k: v.sexpr() for k, v in (watch or {}).items()}, "meta": m}
